@@ -1017,6 +1017,93 @@ async fn attributes(a: &ShardArgs, idx: u64) {
     out::distinct(&format!("A3/defs{}", defs.len()));
 }
 
+/// Part A4: analog dead-bands written by the real master, applied by the real outstation, read back by the real master
+async fn dead_bands(a: &ShardArgs, idx: u64) {
+    use crate::outstation::database::*;
+    use crate::verif::sim::pair::Pair;
+    let mut r = a.rng(&format!("c09/db/{idx}"));
+    let points: Vec<u16> = vec![0, 5, 255, 256, 65535];
+    let pts = points.clone();
+    let mut oc = OutCfg::default();
+    oc.sol_tx = *r.pick(&[249usize, 2048]);
+    let o = OutSim::start_with(oc, |db| {
+        for i in &pts {
+            db.add(*i, Some(EventClass::Class1), AnalogInputConfig::new(StaticAnalogInputVariation::Group30Var1, EventAnalogInputVariation::Group32Var1, 0.0));
+        }
+    })
+    .await;
+    let mut ac = AssocCfg::quiet(1024);
+    ac.response_timeout_ms = 2000;
+    let m = MasterSim::start(MasterCfg::default(), &[ac]).await;
+    let mut pair = Pair::new(m, o, 0, 0);
+    pair.run_until(50, |_| false, |_, _| {}).await;
+    let mut ctx: Vec<String> = vec![];
+    // model of the dead-bands
+    let mut model: std::collections::BTreeMap<u16, f64> = points.iter().map(|i| (*i, 0.0)).collect();
+    for _ in 0..r.range(2, 6) {
+        let var = 1 + r.below(3) as u8;
+        let wide = r.bool();
+        let n = r.range(1, 4);
+        let mut items: Vec<(u16, f64)> = vec![];
+        for _ in 0..n {
+            let idx_pool: Vec<u16> = if wide { vec![0, 5, 255, 256, 65535, 7] } else { vec![0, 5, 255, 7] };
+            let i = *r.pick(&idx_pool);
+            let v: f64 = match var {
+                1 => *r.pick(&[0.0, 1.0, 65535.0, 1234.0]),
+                2 => *r.pick(&[0.0, 65536.0, 4294967295.0, 99999.0]),
+                _ => *r.pick(&[0.0, 0.5, 16777216.0, 3.25, 1e30]),
+            };
+            items.push((i, v));
+        }
+        let all_exist = items.iter().all(|(i, _)| model.contains_key(i));
+        let _ = pair.o.mock.take();
+        let id = pair.m.submit(0, UserReq::WriteDeadBandsV(var, wide, items.clone()));
+        settle().await;
+        pair.pump();
+        pair.run_until(10_000, |pr| pr.m.result_of(id).is_some() && pr.in_flight.is_empty(), |_, _| {}).await;
+        let res = pair.m.result_of(id).map(|x| x.3).unwrap_or_default();
+        let calls: Vec<(u16, f64)> = pair.o.mock.take().iter().filter_map(|(_, e)| if let Ev::WriteDeadBand(i, v) = e { Some((*i, *v)) } else { None }).collect();
+        ctx.push(format!("WRITE g34v{var} wide={wide} {items:?} -> {res}; application calls {calls:?}"));
+        out::eval(1);
+        // every existing point named by the request gets its value, in order; the value is the one written (f32 for variation 3)
+        let want: Vec<(u16, f64)> = items.iter().filter(|(i, _)| model.contains_key(i)).map(|(i, v)| (*i, if var == 3 { *v as f32 as f64 } else { *v })).collect();
+        if calls != want {
+            report(a, "A4", idx, &("dead_band_write".into(), format!("g34v{var}"), format!("dead-bands {items:?} (points {points:?}) reached the application as {calls:?}, expected {want:?}")), &[], &ctx);
+        } else {
+            out::count("A4_dead_band_write_ok", 1);
+        }
+        if all_exist != res.starts_with("Ok") {
+            report(a, "A4", idx, &("dead_band_write_result".into(), format!("exist{}", all_exist as u8), format!("write_dead_bands returned {res} although all points exist = {all_exist}")), &[], &ctx);
+        }
+        for (i, v) in want {
+            model.insert(i, v);
+        }
+        // read back with a variation that can carry every current value
+        let maxv = model.values().cloned().fold(0.0, f64::max);
+        let frac = model.values().any(|v| v.fract() != 0.0 || *v > 4294967295.0);
+        let rv = if frac { 3 } else if maxv > 65535.0 { *r.pick(&[2u8, 2, 3]) } else { 1 + r.below(3) as u8 };
+        if rv == 3 && model.values().any(|v| (*v as f32) as f64 != *v) {
+            continue;
+        }
+        let _ = pair.m.assocs[0].2.take();
+        let id = pair.m.submit(0, UserReq::ReadHeaders(vec![(2, 34, rv, 0, 65535)]));
+        settle().await;
+        pair.pump();
+        pair.run_until(20_000, |pr| pr.m.result_of(id).is_some() && pr.in_flight.is_empty(), |_, _| {}).await;
+        let got: Vec<(u16, f64)> = pair.m.assocs[0].2.take().into_iter().filter_map(|i| if let Item::M(rec) = i { if rec.ptype == ra::PType::AnalogDeadBand { if let RVal::F64(v) = rec.val { return Some((rec.index, v)); } } None } else { None }).collect();
+        let want: Vec<(u16, f64)> = model.iter().map(|(i, v)| (*i, *v)).collect();
+        ctx.push(format!("READ g34v{rv} -> {got:?}"));
+        out::eval(1);
+        if got != want {
+            report(a, "A4", idx, &("dead_band_read".into(), format!("g34v{rv}"), format!("dead-bands are {want:?}; READ g34v{rv} delivered {got:?}")), &[], &ctx);
+        } else {
+            out::count("A4_dead_band_read_ok", 1);
+            out::count(&format!("A4_read_ok_g34v{rv}"), 1);
+        }
+    }
+    out::distinct("A4/dead-bands");
+}
+
 pub fn run(a: &ShardArgs) -> Result<(), String> {
     let only: Option<u64> = a.replay.as_ref().and_then(|p| super::common::replay_scenario(p));
     if only.is_none() {
@@ -1026,7 +1113,7 @@ pub fn run(a: &ShardArgs) -> Result<(), String> {
         // interpreter runs: the parser / iterator / extraction code only (no sessions)
         return Ok(());
     }
-    let n = a.n(4500);
+    let n = a.n(5250);
     for idx in 0..n {
         if idx % a.nshards != a.shard {
             continue;
@@ -1037,10 +1124,11 @@ pub fn run(a: &ShardArgs) -> Result<(), String> {
             }
         }
         out::progress(&format!("scenario {idx}"));
-        match idx % 3 {
-            0 => run_scenario(master_requests(a, idx)),
-            1 => run_scenario(outstation_responses(a, idx)),
-            _ => run_scenario(attributes(a, idx)),
+        match idx % 7 {
+            0 | 3 => run_scenario(master_requests(a, idx)),
+            1 | 4 => run_scenario(outstation_responses(a, idx)),
+            2 | 5 => run_scenario(attributes(a, idx)),
+            _ => run_scenario(dead_bands(a, idx)),
         }
         for p in crate::verif::util::take_panics() {
             out::violation(P, "C09.panic", &crate::verif::util::norm_location(&p.location), J::obj(vec![("why", J::s(format!("panic {} at {}", p.message, p.location)))]), J::obj(vec![("check", J::s("c09")), ("seed", J::U(a.seed)), ("shard", J::U(a.shard)), ("nshards", J::U(a.nshards)), ("scenario", J::U(idx))]));
